@@ -70,9 +70,11 @@ def check(prog, rep):
     sub = Report("C18", rep.tier, rep.repo, quiet=True)
     check_commit_discipline(prog, sub)
     for o in sub.obligations:
-        if o.rule in ("COMMIT-B",):
+        if o.rule in ("COMMIT-B", "CONN"):
             rep.obligations.append(o)
     rep.rules["COMMIT-B"] = sub.rules["COMMIT-B"]
+    if "CONN" in sub.rules:
+        rep.rules["CONN"] = sub.rules["CONN"]
     rep.errors += sub.errors
     # every event write issued through a Bucket reaches the storage (and with it conditional_commit): the wrapper answers none itself
     from ..rules_wrap import wrapper_rules
